@@ -100,9 +100,9 @@ def MonoFont.areaDrawable (f : MonoFont) (a : Rect) : Bool :=
   !(a.isZeroSized || decide (a.tl.x < 0) || decide (a.tl.y < 0)
     || decide (a.tl.x.toNat + a.size.w > f.imgW) || decide (a.tl.y.toNat + a.size.h > f.imgH))
 
-/-- Colours `ContiguousPixels` yields for a sub-image area: the atlas pixels of the area, row-major.
-(Today the real stream carries one surplus row, C09 finding #4; every consumer below pairs the
-stream with the `w*h` points of the area, so the surplus never reaches a pixel.) -/
+/-- Colours `ContiguousPixels` yields for a sub-image area: the atlas pixels of the area, row-major,
+exactly `w*h` of them (`EG.C14.glyph_stream` / `builtin_glyph_stream` derive this from the C09 image model; the
+harness demands exactly `w*h` colours in the glyph's `fill_contiguous` call). -/
 def cellBits (atlas : Pt → Bool) (a : Rect) : List Bool :=
   (List.range a.size.h).flatMap (fun (r : Nat) =>
     (List.range a.size.w).map (fun (c : Nat) => atlas ⟨a.tl.x + (c : Int), a.tl.y + (r : Int)⟩))
